@@ -7,6 +7,7 @@
 import GSV.RealInst
 import GSV.Model.CovFn
 import GSV.Lemmas.Ctl
+import GSV.Lemmas.Sum
 import Mathlib.Tactic.Ring
 import Mathlib.Tactic.FieldSimp
 import Mathlib.Tactic.Linarith
@@ -18,8 +19,10 @@ import Mathlib.MeasureTheory.Integral.Gamma
 import Mathlib.MeasureTheory.Integral.IntegralEqImproper
 import Mathlib.Analysis.SpecialFunctions.Trigonometric.InverseDeriv
 import Mathlib.Analysis.SpecialFunctions.ImproperIntegrals
+import Mathlib.Analysis.SpecialFunctions.OrdinaryHypergeometric
+import Mathlib.RingTheory.Polynomial.Pochhammer
 namespace GSV.Lemmas.CovFn
-open GSV GSV.Transc GSV.Model.CovFn MeasureTheory Set Filter Topology
+open GSV GSV.Transc GSV.Model.CovFn MeasureTheory Set Filter Topology Polynomial
 
 
 theorem fmin_real (a b : ℝ) : fmin a b = min a b := by
@@ -314,5 +317,70 @@ theorem integral_rationalCor_one : ∫ h in Ioi (0:ℝ), rationalCor 1 h = Real.
   rw [← this]
   refine setIntegral_congr_fun measurableSet_Ioi (fun x _ => ?_)
   simp [rationalCor, Real.rpow_neg_one]
+
+/-! the terminating hypergeometric series of the Super/HyperSpherical slices -/
+
+theorem choose_eq (n k : ℕ) : choose n k = Nat.choose n k := by
+  induction n generalizing k with
+  | zero => cases k <;> simp [choose]
+  | succ n ih => cases k with
+    | zero => simp [choose]
+    | succ k => simp [choose, ih, Nat.choose_succ_succ]
+
+/-- `(1/2)_k * (2k+1) = (3/2)_k` -/
+theorem pochhammer_half (k : ℕ) :
+    (ascPochhammer ℝ k).eval (1 / 2) * (2 * (k:ℝ) + 1) = (ascPochhammer ℝ k).eval (3 / 2) := by
+  have h1 : (ascPochhammer ℝ (k + 1)).eval (1 / 2) = (ascPochhammer ℝ k).eval (1 / 2) * (1 / 2 + k) :=
+    ascPochhammer_succ_eval k _
+  have h2 : (ascPochhammer ℝ (k + 1)).eval (1 / 2) = 1 / 2 * (ascPochhammer ℝ k).eval (3 / 2) := by
+    rw [ascPochhammer_succ_left]
+    simp only [eval_mul, eval_X, eval_comp, eval_add, eval_one]
+    norm_num
+  have := h1.symm.trans h2
+  linarith
+
+theorem pochhammer_three_half_ne (k : ℕ) : (ascPochhammer ℝ k).eval (3 / 2) ≠ 0 := by
+  rw [Ne, ascPochhammer_eval_eq_zero_iff]
+  rintro ⟨j, _, hj⟩
+  have : (0:ℝ) ≤ j := Nat.cast_nonneg j
+  linarith
+
+/-- coefficient of `₂F₁(1/2, -n; 3/2; ·)` -/
+theorem hyp_coeff (n k : ℕ) :
+    ((k.factorial : ℝ)⁻¹ * (ascPochhammer ℝ k).eval (1 / 2) * (ascPochhammer ℝ k).eval (-(n:ℝ)) *
+      ((ascPochhammer ℝ k).eval (3 / 2))⁻¹) = (Nat.choose n k : ℝ) * (-1) ^ k / (2 * (k:ℝ) + 1) := by
+  have h3 := pochhammer_three_half_ne k
+  have h21 : (2 * (k:ℝ) + 1) ≠ 0 := by positivity
+  have hfac : (k.factorial : ℝ) ≠ 0 := by positivity
+  rw [ascPochhammer_eval_neg_eq_descPochhammer, descPochhammer_eval_eq_descFactorial,
+    Nat.descFactorial_eq_factorial_mul_choose, ← pochhammer_half k]
+  have h12 : (ascPochhammer ℝ k).eval (1 / 2) ≠ 0 := by
+    intro h; rw [← pochhammer_half k, h, zero_mul] at h3; exact h3 rfl
+  push_cast
+  field_simp
+
+theorem hyp2f1HalfNegNat_eq_sum (n : ℕ) (x : ℝ) :
+    hyp2f1HalfNegNat n x = ∑ k ∈ Finset.range (n + 1), (Nat.choose n k : ℝ) * (-x) ^ k / (2 * (k:ℝ) + 1) := by
+  unfold hyp2f1HalfNegNat
+  rw [forRange_cast_zero_add_eq_sum]
+  refine Finset.sum_congr rfl (fun k _ => ?_)
+  simp only [npow_real, choose_eq]
+  push_cast
+  ring
+
+/-- the terminating series of the model *is* Gauss' hypergeometric function `₂F₁(1/2, -n; 3/2; x)` -/
+theorem hyp2f1HalfNegNat_eq (n : ℕ) (x : ℝ) :
+    hyp2f1HalfNegNat n x = ordinaryHypergeometric (1 / 2 : ℝ) (-(n:ℝ)) (3 / 2) x := by
+  rw [hyp2f1HalfNegNat_eq_sum, ordinaryHypergeometric_eq_tsum]
+  simp only
+  rw [tsum_eq_sum (s := Finset.range (n + 1))]
+  · refine Finset.sum_congr rfl (fun k _ => ?_)
+    rw [hyp_coeff, smul_eq_mul, neg_pow]
+    ring
+  · intro k hk
+    have hk' : n < k := by simpa using hk
+    have : (ascPochhammer ℝ k).eval (-(n:ℝ)) = 0 := by
+      rw [ascPochhammer_eval_eq_zero_iff]; exact ⟨n, hk', by simp⟩
+    simp [this]
 
 end GSV.Lemmas.CovFn
